@@ -16,12 +16,15 @@ META = dict(
     note='Trusts the harness occupancy word (incremented after acquire, decremented before release) and the heartbeat-based stall rule; '
          'fairness figures (max_overtaken) are advisory.')
 
-RULE = ('one case = one phase of one run (threads x writer-permille x critical-section length x yield setting x flavour x prewarm) in '
+RULE = ('episodes: one case = one short bounded run (2..4 threads x 1..4 lock cycles each, random reader/writer roles) on a freshly '
+        'initialised lock aged by 0..3 write and 0..2 read cycles; non-trivial = two conflicting acquisitions of different threads were '
+        'pending at the same time (one had to wait); distinct = distinct (ageing, entry order of (thread, role)) signatures. stress: '
+        'one case = one phase of one run (threads x writer-permille x critical-section length x yield setting x flavour x prewarm) in '
         'which every acquisition was judged by the occupancy oracle; non-trivial = at least two threads and a conflict was really '
         'exercised (an acquisition found the lock held by a conflicting class when it was invoked, or readers were inside together); '
         'distinct = distinct phase configurations')
 
-FLOORS = (10, 5)
+FLOORS = (100, 20)
 
 
 def exe(ctx, flavour):
@@ -37,7 +40,7 @@ def run(ctx):
     thorough = ctx.tier == 'thorough'
     ctx.rule = RULE
     ctx.assumptions = ['occupancy word updated after acquire / before release: a conflicting non-zero half on entry is a real overlap',
-                       'a run that stalls twice (no acquisition by the waiting class for 60 s) is "no progress"; one stall is inconclusive',
+                       'a run that stalls twice (no acquisition by the waiting class for 25 s) is "no progress"; one stall is inconclusive',
                        'PARSEC_RWLOCK_IMPL is the ticket implementation configured in parsec_rwlock.h; other branches are not compiled',
                        'prewarm performs real uncontended read cycles to age the ticket counters (no field is poked)']
     q = 40000 if thorough else 1500
@@ -63,6 +66,12 @@ def run(ctx):
             jobs.append(dict(kind='excl', flavour=flavour, threads=threads, cs=200, y=(100, 0), prewarm=pw, tag='x%d' % n,
                              cmd=[e, '--mode', 'excl', '--threads', threads, '--quota', max(400, q // 2), '--cs', 200, '--mix', '100,500,20,0,300',
                                   '--seed', ctx.seed * 100 + n, '--yield', 100, '--prewarm', pw]))
+        for threads in (2, 3, 4):
+            for y in ((0, 0), (400, 0), (600, 10)):
+                n += 1
+                jobs.append(dict(kind='ep', flavour=flavour, threads=threads, cs=100, y=y, prewarm=0, tag='e%d' % n,
+                                 cmd=[e, '--mode', 'episodes', '--threads', threads, '--cycles', 4, '--episodes', (150000 if thorough else 1500) // (3 if y[1] else 1),
+                                      '--seed', ctx.seed * 100 + n, '--yield', y[0], '--yield-us', y[1]]))
         for victim, nv, na, y in (('writer', 1, 6, 0), ('writer', 2, 10, 150), ('reader', 2, 6, 0), ('reader', 4, 8, 150), ('writer', 1, 15, 0)):
             n += 1
             jobs.append(dict(kind='starve', flavour=flavour, threads=nv + na, cs=300, y=(y, 0), prewarm=0, victim=victim, tag='s%d' % n,
@@ -71,15 +80,17 @@ def run(ctx):
 
     def one(j):
         cmd = [str(c) for c in j['cmd']]
+        if ctx.violations:
+            return j, None, 'skipped'      # a witness exists: do not spend the stall budget of the remaining runs
         what = '%s %s' % (j['flavour'], ' '.join(cmd[1:]))
-        r, st = ctx.run_with_stall_rule(lambda: ctx.run(cmd, timeout=7200 if thorough else 900, stall_s=60, tag=j['tag']), what)
+        r, st = ctx.run_with_stall_rule(lambda: ctx.run(cmd, timeout=7200 if thorough else 900, stall_s=25, tag=j['tag']), what)
         return j, r, st
 
     # runs use up to 16 spinning threads each: two at a time at most
     res = ctx.pmap(one, [j for j in jobs if j['threads'] <= 4], jobs=3) + ctx.pmap(one, [j for j in jobs if j['threads'] > 4], jobs=2)
     tot_shared = 0
     for j, r, st in res:
-        if st == 'stalled':
+        if st in ('stalled', 'skipped') or r is None:
             continue
         s = r.summary()
         if not s:
@@ -95,10 +106,16 @@ def run(ctx):
                 ctx.max_cov('max_readers_inside_together', ph['max_readers'])
                 tot_shared += ph['shared']
                 if ph['shared'] and ph['wacq'] and j['threads'] >= 4:
-                    ctx.sample(dict(ph, flavour=j['flavour'], cs=j['cs'], yield_cfg=ycfg, prewarm=j['prewarm']))
+                    ctx.sample(dict(ph, flavour=j['flavour'], cs=j['cs'], yield_cfg=ycfg, prewarm=j['prewarm']), cap=5)
             if j['prewarm']:
                 ctx.add_cov('runs_with_aged_ticket_counters', 1)
                 ctx.cov.setdefault('rin_after_aged_runs', []).append(s['rin'])
+        elif j['kind'] == 'ep':
+            ctx.evaluations += s['episodes']; ctx.nontrivial_extra += s['distinct']
+            ctx.add_cov('episodes', s['episodes']); ctx.add_cov('episodes_with_contention', s['nontrivial'])
+            ctx.add_cov('read_acquisitions', s['racq']); ctx.add_cov('write_acquisitions', s['wacq'])
+            for ep in r.of('episode')[:1]:
+                ctx.sample(dict(threads=s['threads'], flavour=j['flavour'], yield_cfg=ycfg, episode=ep['events'][:500]), cap=3)
         else:
             nontrivial = s['vict_acq'] > 0 and s['aggr_acq'] > 0
             ctx.note_case(('starve', j['flavour'], j['victim'], s['victims'], s['aggressors'], ycfg), nontrivial)
@@ -108,7 +125,7 @@ def run(ctx):
                 ctx.add_cov('write_acquisitions', s['vict_acq']); ctx.add_cov('read_acquisitions', s['aggr_acq'])
             else:
                 ctx.add_cov('read_acquisitions', s['vict_acq']); ctx.add_cov('write_acquisitions', s['aggr_acq'])
-            ctx.sample(dict(s, flavour=j['flavour']), cap=7)
+            ctx.sample(dict(s, flavour=j['flavour']), cap=6)
         ctx.add_cov('yield_hits', s['yield_hits'])
     if ctx.evaluations and tot_shared == 0:
         ctx.harness_failures.append('no reader sharing was observed in any phase: the runs did not exercise sharing')
